@@ -123,6 +123,28 @@ def check_type(ctx, d, stratum="type"):
         cb = opaque_bounds(c._to_serial_root().model_dump(mode="json"), [])[0][2]
         if cb != exp:
             ctx.disc(None, "loaded-definition-wire-bound", name, exp, cb, stratum=stratum, case=d)
+    if d[0] == "ext" and d[1]["bound"][0] == "from":
+        # an argument that does not fit its parameter: a linear type at a named position whose parameter is declared
+        # copyable.  Refusing it is fine; if the type is built, its bound is still the join of what its named
+        # arguments ARE (the definition's parameter declaration is no licence to assume)
+        from hugr import tys as _t2
+
+        for idx in d[1]["bound"][1]:
+            if d[1]["params"][idx] == ["T", "C"] and d[2][idx][0] == "t":
+                ctx.count("monitor:ill-fitting-argument")
+                args2 = list(t.args)
+                args2[idx] = _t2.TypeTypeArg(_t2.Tuple(_t2.Bool, _t2.Qubit))
+                try:
+                    t_bad = t.type_def.instantiate(args2)
+                    got_b = t_bad.type_bound().value
+                    wb = opaque_bounds(t_bad._to_serial_root().model_dump(mode="json"), [])[0][2]
+                except Exception:  # noqa: BLE001
+                    ctx.count("observed:ill-fitting-argument-refused")
+                    break
+                if got_b != "A" or wb != "A":
+                    ctx.disc(None, "type_bound[linear argument at a copyable-declared position]", idx, "A (or a refusal)",
+                             [got_b, wb], stratum=stratum, case=d)
+                break
     try:
         sa = StaticArray(t)
         res = "accepted"
